@@ -6,7 +6,7 @@ from .common import *
 
 META = {
     'title': 'modes: chaining terms of ECB/CBC/CTR/CTS enc and dec, padding reset, counter layout (nonce half + big-endian counter half), pack/unpack agreement, name/kind definedness',
-    'expected_min': 30,
+    'expected_min': 207,
     'explanation': 'Every method of mode.py is normalised and compared with a restatement of SP 800-38A (CBC: IV first, x = b xor previous block; CBC '
                    'decryption right to left; CTR: E(counter) xor b with a truncating xor; CS3-style ciphertext stealing), including the padding reset at '
                    'the start of every enc(); DefaultCounter packs and unpacks the counter half with the same big-endian convention (unpack accumulation '
